@@ -195,6 +195,47 @@ CaseOutcome prop_execute(const std::string & case_json) {
             }
         }
         if (!oc.ok) break;
+        // ... and the stored entries of the upper levels (each covers sdf * sumdf^(L-1) samples): aligned requests with
+        // increment = entry size and >= 25 entries are served from that level.  An entry whose first child is all-gap must still
+        // report the min/max/mean of its finite samples.
+        if (dt.kind == 'f' && dt.bits == 32) {
+            int64_t sumdf = sd.summary_decimate_factor ? sd.summary_decimate_factor : 1;
+            int64_t step = sdf;
+            for (int L = 2; L <= 4 && oc.ok; ++L) {
+                step *= sumdf;
+                int64_t count = len / step;
+                if (count < 26) break;
+                if (count > 4000) count = 4000;
+                std::vector<double> out((size_t) count * 4);
+                rc = jls_rd_fsr_statistics(rd.rd, (uint16_t) kv.first, 0, step, out.data(), count);
+                if (rc) { oc.fail("summary", strf("jls_rd_fsr_statistics(sig %d, 0, %lld, %lld) returned %d", kv.first, (long long) step, (long long) count, rc)); break; }
+                bool with_gap = false;
+                for (int64_t e = 0; e + 1 < count && oc.ok; ++e) {
+                    long double sum = 0; int64_t nfin = 0; double mn = INFINITY, mx = -INFINITY;
+                    for (int64_t k = e * step; k < (e + 1) * step; ++k) {
+                        double v = sample_to_double(dt, s.samples.get(k));
+                        if (std::isfinite(v)) { sum += v; ++nfin; if (v < mn) mn = v; if (v > mx) mx = v; }
+                    }
+                    double mean = out[(size_t) e * 4 + 0], gmn = out[(size_t) e * 4 + 2], gmx = out[(size_t) e * 4 + 3];
+                    if (nfin == 0) {
+                        if (!std::isnan(mean)) oc.fail("summary_gap", strf("signal %d %s level-%d entry %lld covers only gap samples but mean=%g (expected NaN)", kv.first, dt.name, L, (long long) e, mean));
+                        continue;
+                    }
+                    // The mean of a level >= 2 entry is the plain average of its children's means (children with fewer finite
+                    // samples weigh the same), so only its range is judged: within [min, max] of the finite samples.
+                    double A = std::max(fabs(mn), fabs(mx));
+                    double tol = 4e-7 * (A + 1e-30) * 8;
+                    bool mean_ok = mean >= mn - tol && mean <= mx + tol;
+                    if (!mean_ok || !((float) gmn == (float) mn) || !((float) gmx == (float) mx)) {
+                        oc.fail("summary_gap", strf("signal %d %s level-%d entry %lld (samples %lld..%lld, %lld finite): mean=%.9g min=%.9g max=%.9g, the finite samples have min=%.9g max=%.9g",
+                                                    kv.first, dt.name, L, (long long) e, (long long) (e * step), (long long) ((e + 1) * step - 1), (long long) nfin, mean, gmn, gmx, mn, mx));
+                    }
+                    if (nfin < step) with_gap = true;
+                }
+                if (with_gap) oc.tags.push_back(strf("level%d_entry_with_gap", L));
+            }
+        }
+        if (!oc.ok) break;
     }
     rd.close();
     oc.nontrivial = (gaps + overlaps) > 0 && unaligned_event;
